@@ -93,7 +93,7 @@ func drawSpec(r *rng, name string, b specBias) *genParser {
 			Actions: r.intn(100) < b.actions, Preds: r.intn(100) < b.preds, States: r.intn(100) < b.states,
 			Lookahead: r.chance(2, 3), Labels: r.chance(2, 3), Throws: r.intn(100) < b.throws, Fold: r.chance(1, 3),
 			Unicode: r.intn(100) < b.unicode, AnyMatcher: r.chance(1, 2), Display: r.intn(100) < b.display,
-			NullableLoops: r.intn(100) < b.nullableLoops, LeftRec: lr, LeftRecDirect: b.lrDirect, StateBias: b.stateBias,
+			NullableLoops: r.intn(100) < b.nullableLoops, LeftRec: lr, LeftRecDirect: b.lrDirect, LeftRecRunnable: true, StateBias: b.stateBias,
 		}
 		g := gen.Generate(r2{r}, cfg)
 		if g == nil {
